@@ -35,7 +35,7 @@ SWEEP_N = 129           # instants 0, 1/128, ..., 1.0
 
 
 def batches(tier):
-    k = 1 if tier == 'quick' else 12
+    k = 1 if tier == 'quick' else 40
     out = [{'name': n, 'n': c * k, 'profile': n} for n, c in PROFILES]
     out.append({'name': 'shutdown-sweep', 'n': len(SWEEP_BASES) * SWEEP_N, 'profile': 'sweep', 'chunk': 150})
     return out
